@@ -403,7 +403,7 @@ ext_receiver!(rx_complete_ru_o4_o6, 24, crate::dmodels::hdr_complete_ru, false, 
 ext_receiver!(rx_complete_bc_o2_mfinal, 24, crate::dmodels::hdr_complete_bc, false, LT::Broadcast, true, None, [O(2), M(0)]);
 ext_receiver!(rx_complete_bc_mfinal2, 24, crate::dmodels::hdr_complete_bc, false, LT::Broadcast, true, None, [M(2)]);
 ext_receiver!(rx_complete_bc_m3_o8_m0, 24, crate::dmodels::hdr_complete_bc, false, LT::Broadcast, false, None, [M(3), O(8), M(0)]);
-ext_receiver!(rx_complete_bc_o2_o4_o6_o8, 24, crate::dmodels::hdr_complete_bc, false, LT::Broadcast, false, None, [O(2), O(4), O(6), O(8)]);
+ext_receiver!(rx_complete_bc_o2_o4_o6_o8, 40, crate::dmodels::hdr_complete_bc, false, LT::Broadcast, false, None, [O(2), O(4), O(6), O(8)]);
 ext_receiver!(rx_first_bc_o2, 24, crate::dmodels::hdr_first_bc, true, LT::Broadcast, false, None, [O(2)]);
 ext_receiver!(rx_first_6b_m3_o0, 24, crate::dmodels::hdr_first_6b, true, LT::Six, false, None, [M(3), O(0)]);
 ext_receiver!(rx_first_bc_mfinal0, 24, crate::dmodels::hdr_first_bc, true, LT::Broadcast, true, None, [M(0)]);
